@@ -17,6 +17,7 @@
 #include <sstream>
 #include <sys/wait.h>
 #include <csignal>
+#include "watchdog.h"
 using namespace hsim;
 
 struct Obj { std::string kind; void* p; };
@@ -95,14 +96,10 @@ static void report_state(const char* tag) {
     }
 }
 
-static void on_alarm(int) {   // real-time watchdog: the runtime spins or is blocked in the kernel
-    emit("result hung");
-    flush_trace();
-    _exit(0);
-}
+// the program has N s in which the machine runs it (watchdog.h): spinning or blocked in the kernel after that = hung
+static void on_verdict(const char* result) { trace += wd::g_diag; emit("%s", result); flush_trace(); _exit(0); }
 static int run_program(const std::vector<std::string>& lines) {
-    signal(SIGALRM, on_alarm);
-    alarm(10);
+    wd::start(nullptr, on_verdict, 10, 1);
     init();
     int nthreads = 0;
     for (auto& l : lines) {
